@@ -188,14 +188,21 @@ class BirthDeath(Distribution):
         ).sum(-1)
 
         y = self.origin - tip_heights
+        # leaves sampled at present are rho-sampled when rho > 0
+        is_rho_tip = (tip_heights == 0.0) & (self.rho > 0.0)
         if serially_sampled:
-            log_p += (
+            log_p += torch.where(
+                is_rho_tip,
+                torch.zeros_like(y),
                 torch.log(self.psi)
                 - self.log_q(
                     A,
                     B,
                     y,
                     self.origin,
-                )
+                ),
             ).sum(-1)
+        log_p += torch.where(
+            is_rho_tip, torch.log(self.rho), torch.zeros_like(y)
+        ).sum(-1)
         return log_p
